@@ -933,7 +933,8 @@ def unpack(ip, v, n):
 
 
 def unpack_star(ip, v):
-    return NotImplemented
+    h = getattr(ip.ctx.unit, "unpack_star", None)
+    return h(ip, v) if h is not None else NotImplemented
 
 
 def make_list(ip, elems):
